@@ -93,8 +93,10 @@ Definition table_here (pk : kind) (pw : bool) (k : kind) (w : bool) (l : list tr
       | _ => true
       end).
 
-Definition text_here (k : kind) (e : bool) (l : list tree) : bool :=
-  match k with KText => negb e && match l with [] => true | _ => false end | _ => true end.
+(* a text box has no children; right after the build it is not empty (inline_in_block removes the text boxes that
+   process_whitespace emptied; layout may empty one again when it drops a trailing space) *)
+Definition text_here (post : bool) (k : kind) (e : bool) (l : list tree) : bool :=
+  match k with KText => (post || negb e) && match l with [] => true | _ => false end | _ => true end.
 
 (* bit mask of the clauses failing somewhere in the tree: 1 _sanity_checks, 2 block container / inline content,
    4 table structure, 8 text boxes *)
@@ -102,7 +104,7 @@ Fixpoint wf_mask (post : bool) (pk : kind) (pw : bool) (t : tree) : nat * nat * 
   match t with
   | N k f w e l =>
       let here := ((if sanity_here k l then 0 else 1), (if ifc_here post k l then 0 else 1),
-                   (if table_here pk pw k w l then 0 else 1), (if text_here k e l then 0 else 1)) in
+                   (if table_here pk pw k w l then 0 else 1), (if text_here post k e l then 0 else 1)) in
       fold_left (fun acc c => let '(a, b, c0, d) := acc in let '(a', b', c', d') := wf_mask post k w c in
                               (Nat.max a a', Nat.max b b', Nat.max c0 c', Nat.max d d')) l here
   end.
